@@ -367,6 +367,10 @@ func (w *c05World) concurrentLocal(baton *kernel.Baton) {
 	_, stuck := baton.Drive(t, world.Settle, func(p *kernel.Parked, runnable, waiting int) {
 		c.Logf("  task crosses %s (%d of %d can run)", p.Site, runnable, waiting)
 		time.Sleep(time.Microsecond) // the broker's clock moves on between any two critical sections (no timestamp ties)
+		c.Probe("campaign-E-boundary-crossings")
+		if strings.Contains(p.Site, "Swarm.reconcile") {
+			c.Probe("campaign-E-crossing-inside-reconcile")
+		}
 		if waiting > runnable {
 			c.Probe("task-kept-parked-because-mutex-is-held")
 		}
